@@ -16,12 +16,16 @@ MANIFEST = {
     "level": "other",
     "technique": "seeded permutation of sibling evaluation messages (guarded hook) on generated programs, every schedule "
                  "compared with the Lean specification Sem; Lean theorems cover the specification and the stages downstream "
-                 "of the grounder only",
+                 "of the grounder only; on ground programs without recursion the engine itself is modelled "
+                 "(ProbLogModel/GroundAcyclic.lean: exact equality of the ground program under the recorded schedule) and "
+                 "schedule independence is a Lean theorem (C01Ground.C03_ground_schedule_independent)",
     "text": "Partial: the quantifier over schedules is explored, not proved. What Lean proves is that results are a function "
             "of the denotation of the ground program (pipeline stages C09-C11, specification C01); the message-passing "
             "grounder itself is not modelled. Each schedule's output is compared with the specification value, so two "
             "schedules can only differ if one of them differs from the specification.",
-    "note": "Trusted: harness, hook in engine_stack.py (add-only, off by default). Known finding F1 (false NegativeCycle, "
+    "note": "Ground acyclic fragment: harness/ground_util.py records the permutation the hook applied to every batch of sibling "
+            "clauses (wrapper around engine_stack._verif_shuffle) and hands it to the model. "
+            "Trusted: harness, hook in engine_stack.py (add-only, off by default). Known finding F1 (false NegativeCycle, "
             "schedule dependent) is reported as KNOWN-FINDING.",
     "design_ref": "DESIGN.md §6 C03, §7",
 }
@@ -42,6 +46,13 @@ def run(ctx):
     N[0] = ctx.budget(6, 30)
     ctx.rule = ("generated programs x seeded schedules (permutation of every batch of sibling 'e' messages); a case = one "
                 "program with its schedule seeds; non-trivial = at least one query instance and more than one world")
-    return cfgprop.run(ctx, MODULE, THEOREMS, variants, nq=50, nt=700, level="other", gen_kwargs={"disjunction": True},
-                       explanation="Schedules are explored (seeded), not proved; every schedule is compared with the Lean "
-                                   "specification. The engine's internal algorithm is not modelled.")
+    # ground programs without recursion: the engine is MODELLED (exact correspondence of the ground program under the
+    # recorded schedule) and schedule independence is a theorem (C03_ground_schedule_independent)
+    import ground_util
+    gerr = ground_util.guarded(ctx, "sched", 200, 6000)
+    rc = cfgprop.run(ctx, MODULE, THEOREMS, variants, nq=50, nt=700, level="other", gen_kwargs={"disjunction": True},
+                     explanation="Schedules are explored (seeded), not proved, on general programs; every schedule is compared "
+                                 "with the Lean specification. On ground programs without recursion the engine is modelled "
+                                 "(lean/ProbLogModel/GroundAcyclic.lean, exact correspondence under the recorded schedule) and "
+                                 "schedule independence is proved (ProbLogProofs.C01Ground).")
+    return ground_util.after(rc, gerr)
